@@ -107,9 +107,18 @@ fn emit_go(rng: &mut Rng, case: &mut Case, class: u8, allow_infinite: bool) {
     let kind = rng.below(100);
     let ping = rng.chance(1, 4);
     if kind < 35 {
-        // depth-limited, awaited
+        // depth-limited, awaited; sometimes with a (long) time budget as well, so that the search ends before its timer
         let d = rng.range(1, dmax);
-        case.raw(format!("go depth {}", d));
+        if rng.chance(1, 6) {
+            let polls = rng.log_uniform(200, 200_000);
+            case.raw(format!("go depth {} movetime {}", d, movetime_for(case, polls)));
+        } else if rng.chance(1, 10) {
+            let polls = rng.log_uniform(200, 200_000);
+            let want = movetime_for(case, polls);
+            case.push(GK::GoClockDepth { own: want * 50 + 8_000, own_inc: 0, opp: rng.log_uniform(1, 600_000), opp_inc: 0, depth: d as u32 });
+        } else {
+            case.raw(format!("go depth {}", d));
+        }
         if ping {
             case.raw("isready");
             if rng.chance(1, 2) {
@@ -242,6 +251,10 @@ pub fn gen_session(prop: &str, seed: u64, profile: u8, faults: bool) -> Case {
         case.push(GK::NewGame { root: root.clone(), pre });
         let turns = if profile == 0 { rng.range(1, 4) } else { rng.range(2, 8) };
         for t in 0..turns {
+            if faults && profile == 0 && rng.chance(1, 8) {
+                // a command the engine has to refuse or ignore: no game set, no search running
+                case.raw(*rng.pick(&["go depth 1", "go movetime 50", "go infinite", "stop", "wait", "show", "ucinewgame", "isready", "go"]));
+            }
             case.push(GK::PosCur);
             if rng.chance(1, 8) {
                 case.raw("show");
@@ -835,7 +848,26 @@ pub fn gen_c19(seed: u64, _thorough: bool) -> Case {
             swarm_params(&mut rng, &mut case);
         }
     }
-    if pert == 7 {
+    if pert == 6 {
+        // a timed search that is stopped long before its budget: the sleeping timer of that search wakes up in the middle
+        // of the item's search and must not touch it
+        case.family = "stale-timer-fires-during-search".into();
+        case.params.oversleep_max = 0;
+        let (hroot, hpre) = if rng.chance(1, 2) { (root.clone(), pre.clone()) } else { let o = rng.pick(ROOTS); (root_cmd(o), vec![]) };
+        case.push(GK::NewGame { root: hroot, pre: hpre });
+        case.push(GK::PosCur);
+        let later = rng.log_uniform(5, 1_500);
+        case.raw(format!("go movetime {}", movetime_for(&case, later)));
+        match rng.below(3) {
+            0 => {}
+            1 => case.push(GK::AfterPolls(rng.below(5))),
+            _ => case.push(GK::AfterPolls(rng.log_uniform(1, later.max(2) / 2 + 1))),
+        }
+        case.raw(if rng.chance(1, 4) { "ucinewgame" } else { "stop" });
+        case.push(GK::AwaitBest);
+        // C19 speaks of a fresh engine or of the state right after `ucinewgame`
+        case.raw("ucinewgame");
+    } else if pert == 7 {
         // `ucinewgame` arriving at the instant the timer of a timed search of the same position fires:
         // the reset must not lose the race against a search thread that is still winding down
         case.family = "ucinewgame-races-timer".into();
